@@ -1034,13 +1034,21 @@ impl Default for HomeRelayWatch {
 impl HomeRelayWatch {
     /// Set the home relay URL and status. Used by [`RelayActor`] on relay changes.
     fn set(&self, url: RelayUrl, state: RelayConnectionState) {
+        #[cfg(iroh_verif)]
+        crate::verif_hooks::pause::point("home_relay:set-lock");
         let _guard = self.write_lock.lock().expect("poisoned");
+        #[cfg(iroh_verif)]
+        crate::verif_hooks::pause::point("home_relay:set-locked");
         let _ = self.inner.set(Some(RelayStatus::new(url, state)));
     }
 
     /// Clear the home relay (no preferred relay). Used by [`RelayActor`].
     fn clear(&self) {
+        #[cfg(iroh_verif)]
+        crate::verif_hooks::pause::point("home_relay:set-lock");
         let _guard = self.write_lock.lock().expect("poisoned");
+        #[cfg(iroh_verif)]
+        crate::verif_hooks::pause::point("home_relay:set-locked");
         let _ = self.inner.set(None);
     }
 
@@ -1055,7 +1063,11 @@ impl HomeRelayWatch {
     /// [`RelayActor`] could change the URL between the two and the demoted actor
     /// would re-publish its own URL.
     fn set_status(&self, url: &RelayUrl, state: RelayConnectionState) {
+        #[cfg(iroh_verif)]
+        crate::verif_hooks::pause::point("home_relay:status-lock");
         let _guard = self.write_lock.lock().expect("poisoned");
+        #[cfg(iroh_verif)]
+        crate::verif_hooks::pause::point("home_relay:status-locked");
         if self.inner.get().as_ref().map(RelayStatus::url) == Some(url) {
             #[cfg(iroh_verif)]
             crate::verif_hooks::pause::point("home_relay:status-checked");
@@ -1519,6 +1531,14 @@ pub mod verif_hooks {
         /// The advertised home relay and the code of its connection state.
         pub fn get(&self) -> Option<(RelayUrl, StateCode)> {
             self.0.get().map(|st| decode(&st))
+        }
+
+        /// Whether some writer currently holds the writer lock (a `try_lock` probe).
+        pub fn write_locked(&self) -> bool {
+            matches!(
+                self.0.write_lock.try_lock(),
+                Err(std::sync::TryLockError::WouldBlock)
+            )
         }
 
         /// The value seen by a public watcher ([`HomeRelayWatch::watch`]).
